@@ -1,6 +1,6 @@
 (* extraction root for C03 — no proofs are needed to build this file *)
 Require Extraction.
 Require Import ExtrOcamlBasic.
-From V Require Import Sem Prod Incl TrimDefs.
+From V Require Import Sem Prod Incl TrimDefs UselessCount.
 Extraction "ex_c03.ml" remove_unreachable remove_unreachable_old remove_useless is_lang_empty ta_same
-  gate_unreach gate_useless gate_empty equiv_dec no_unreachable no_useless is_empty.
+  gate_unreach gate_useless gate_empty equiv_dec no_unreachable no_useless is_empty productive productive_count.
